@@ -372,7 +372,8 @@ def isListDefault : Cell → Bool
   | _ => false
 
 /-- `cls.from_dict(d)` for a dict of equally long columns: empty dict → empty list; an undeclared key →
-`ValueError`; every declared field not in `d` is added with its default -/
+`ValueError`; every declared field not in `d` is added with its default (a list-valued default as one fresh
+list per row — the repair of D24) -/
 def fromDictF (s : Schema) (d : List (String × List Cell)) : Except Err Frame :=
   match d with
   | [] => .ok (emptyFrame s)
@@ -381,7 +382,20 @@ def fromDictF (s : Schema) (d : List (String × List Cell)) : Except Err Frame :
     if keys.all (fun k => s.declaredNames.contains k) then
       let missing := s.declared.filter (fun p => !keys.contains p.1)
       let n := kv.2.length
-      -- `df[col] = default` with a list default only fits a frame without rows
+      let add : Rec := missing.map fun p => (p.1, p.2.2)
+      .ok ⟨keys ++ missing.map (·.1), relabel ((transposeCols n d).map (· ++ add))⟩
+    else .error .value
+
+/-- `from_dict` as it was before the repair of D24: `df[col] = default` with a list default only fits a frame
+without rows (pandas takes the list for a column of that length) -/
+def fromDictOldF (s : Schema) (d : List (String × List Cell)) : Except Err Frame :=
+  match d with
+  | [] => .ok (emptyFrame s)
+  | kv :: _ =>
+    let keys := d.map (·.1)
+    if keys.all (fun k => s.declaredNames.contains k) then
+      let missing := s.declared.filter (fun p => !keys.contains p.1)
+      let n := kv.2.length
       if n ≠ 0 ∧ missing.any (fun p => isListDefault p.2.2) then .error .value
       else
         let add : Rec := missing.map fun p => (p.1, p.2.2)
